@@ -360,6 +360,17 @@ def generate_icmp():
                  "    GEQ_WITH_I1, GT_WITH_I2, GT_WITH, GT_NO -/\n"
                  "def icmpEnumValues : List Int := [%s]\n" % ", ".join(str(vals[e]) for e in ICMP_ENUM))
     parts.append(Fn(decls[0], vals, spec).lean())
+    # the two bound comparisons the classification starts from
+    for f, lname, which, flag in (("lp_interval_cmp_lower_bounds", "cmpLowerBounds", "lower", "a_open"),
+                                  ("lp_interval_cmp_upper_bounds", "cmpUpperBounds", "upper", "b_open")):
+        decls = [o for o in clang_json(f, SRC2) if o.get("kind") == "FunctionDecl" and o.get("name") == f and
+                 any(c.get("kind") == "CompoundStmt" for c in o.get("inner", []))]
+        if len(decls) != 1:
+            raise Unsupported("definition of %s not found exactly once" % f)
+        sp = {"name": lname, "lean_params": ["cmpBounds", "open1", "open2"],
+              "members": {("I1", flag): "open1", ("I2", flag): "open2"},
+              "calls": {("lp_value_cmp", "lp_interval_get_%s_bound(I1)" % which, "lp_interval_get_%s_bound(I2)" % which): "cmpBounds"}}
+        parts.append(Fn(decls[0], vals, sp).lean())
     parts.append("end Gen\nend LP\n")
     return "\n".join(parts)
 
